@@ -663,6 +663,9 @@ func persistMain(args mon.Args) {
 		}
 	}
 	run.Add("saves_over_an_existing_file", histN)
+	if args.Replay == "" {
+		minimalRedefinitions(run, dir, snap)
+	}
 
 	// real-crash confirmation: a child dumping in a loop is SIGKILLed and the leftover file is loaded
 	kills := run.Pick(12, 200)
@@ -724,7 +727,7 @@ func persistMain(args mon.Args) {
 	if args.Replay == "" {
 		crossProcessHistories(run, snap, "persist:xproc", run.Pick(60, 1000))
 	}
-	run.SetRule("caches built by decoding generated announcements (1..40 templates quick, ..2000 thorough; plain/options, IPv4/mapped/IPv6 exporters; ipfix and netflow v9). Faults enumerated: EVERY prefix length of the dump file (every crash point of truncate-then-write; stride above 64 KiB), real SIGKILLs of a process dumping in a loop, ~70 single structural edits of the valid document (shards dropped/null/wrong type, Templates null/[]/{}, Cache null/[]/31/33 entries, ShardNo absent/0/31/33/-1/'32'/2^40, entry-level edits, duplicated members, whole-document forms), absent file, seeded byte-level flips/inserts/deletes. Oracles per load: GetCache does not panic; the loaded cache re-dumped holds only entries equal to saved ones (prefix/structural faults); every saved key decodes as before or is unknown; announce+decode works on all 32 shards (64 probe keys, two per shard, chosen by harness-side FNV) and Dump works afterwards; the unmodified file round-trips every key; save histories on one file (larger→smaller, smaller→larger, equal, several steps) must load back as exactly the cache saved last; 60-1000 exporter histories are cut at 1-3 points and every part runs in a process of its own on the cache file its predecessor saved (a real restart), with records and unknown-template reports predicted as for an uninterrupted history; 8 degenerate-entry edits applied to every entry (all lengths 0 or 65535, specifiers []/null/missing, counts 0/65535, empty template) are probed in a child process under a 10 s CPU limit: GetCache must not panic and decoding every key's data must return without a panic. distinct = (kind, position/edit)")
+	run.SetRule("caches built by decoding generated announcements (1..40 templates quick, ..2000 thorough; plain/options, IPv4/mapped/IPv6 exporters; ipfix and netflow v9). Faults enumerated: EVERY prefix length of the dump file (every crash point of truncate-then-write; stride above 64 KiB), real SIGKILLs of a process dumping in a loop, ~70 single structural edits of the valid document (shards dropped/null/wrong type, Templates null/[]/{}, Cache null/[]/31/33 entries, ShardNo absent/0/31/33/-1/'32'/2^40, entry-level edits, duplicated members, whole-document forms), absent file, seeded byte-level flips/inserts/deletes. Oracles per load: GetCache does not panic; the loaded cache re-dumped holds only entries equal to saved ones (prefix/structural faults); every saved key decodes as before or is unknown; announce+decode works on all 32 shards (64 probe keys, two per shard, chosen by harness-side FNV) and Dump works afterwards; the unmodified file round-trips every key; save histories on one file (larger→smaller, smaller→larger, equal, several steps) must load back as exactly the cache saved last; three-life histories on one file in which the second life re-announces some templates with a minimal difference (one field's enterprise number, element id or length, two fields swapped, the scope split moved, or none) and saves, and the third must decode as the second did; 60-1000 exporter histories are cut at 1-3 points and every part runs in a process of its own on the cache file its predecessor saved (a real restart), with records and unknown-template reports predicted as for an uninterrupted history; 8 degenerate-entry edits applied to every entry (all lengths 0 or 65535, specifiers []/null/missing, counts 0/65535, empty template) are probed in a child process under a 10 s CPU limit: GetCache must not panic and decoding every key's data must return without a panic. distinct = (kind, position/edit)")
 	run.Assume("a byte flip inside a digit legitimately yields a different template: byte-level corruptions are judged for 'no crash, still usable' only")
 	run.Finish()
 }
@@ -935,4 +938,135 @@ func lastLines(s string, n int) string {
 		l = l[len(l)-n:]
 	}
 	return strings.Join(l, " | ")
+}
+
+// minimalRedefinitions: three collector lives on one file. Life 1 announces and saves. Life 2 loads the
+// file and the exporters re-announce some templates with the smallest possible difference - one field's
+// enterprise number, element id or length, two fields swapped, the scope/option split moved, or no
+// difference at all - and nothing else happens before it saves. Life 3 loads: every key's data must
+// decode exactly as it did at the end of life 2. (A save that is skipped or abridged because "nothing
+// changed" shows here.)
+func minimalRedefinitions(run *mon.Run, dir string, snap []wire.Elem) {
+	var n int64
+	for _, proto := range []string{"ipfix", "nf9"} {
+		for round := 0; round < run.Pick(12, 200); round++ {
+			g := mon.NewRNG(run.Seed, "persist-minredef-"+proto, round)
+			f := filepath.Join(dir, fmt.Sprintf("minredef-%s-%d.json", proto, round))
+			bc := buildCacheMax(g, proto, g.Range(3, 10), snap, 6)
+			if err := bc.api.dump(f); err != nil {
+				continue
+			}
+			api2 := newCacheAPI(proto, f)
+			var changes []string
+			keys2 := append([]pkey{}, bc.keys...)
+			// which keys change, and how; in a third of the rounds exactly one key changes in exactly one way
+			nchg := 1
+			if round%3 != 0 {
+				nchg = g.Range(1, len(keys2))
+			}
+			for c := 0; c < nchg; c++ {
+				ki := g.Intn(len(keys2))
+				t := *keys2[ki].Tpl
+				t.Scope = append([]wire.Field{}, t.Scope...)
+				t.Fields = append([]wire.Field{}, t.Fields...)
+				all := t.All()
+				fi := g.Intn(len(all))
+				pick := func(i int) *wire.Field {
+					if i < len(t.Scope) {
+						return &t.Scope[i]
+					}
+					return &t.Fields[i-len(t.Scope)]
+				}
+				how := ""
+				switch v := (round + c) % 6; {
+				case v == 0 && proto == "ipfix":
+					fl := pick(fi)
+					if fl.PEN == 0 {
+						fl.PEN = 29305
+					} else {
+						fl.PEN = 0
+					}
+					fl.Type = "?"
+					how = fmt.Sprintf("enterprise number of field %d → %d", fi, fl.PEN)
+				case v == 1:
+					fl := pick(fi)
+					fl.ID = fl.ID ^ 1
+					if fl.ID == 0 {
+						fl.ID = 2
+					}
+					fl.Type = "?"
+					how = fmt.Sprintf("element id of field %d → %d", fi, fl.ID)
+				case v == 2:
+					fl := pick(fi)
+					if fl.Len != 65535 && fl.Len > 1 {
+						fl.Len--
+						how = fmt.Sprintf("length of field %d → %d", fi, fl.Len)
+					}
+				case v == 3 && len(t.Fields) >= 2:
+					t.Fields[0], t.Fields[1] = t.Fields[1], t.Fields[0]
+					how = "first two fields swapped"
+				case v == 4 && t.Options && len(t.Fields) >= 2:
+					t.Scope = append(t.Scope, t.Fields[0])
+					t.Fields = t.Fields[1:]
+					how = "first option field moved into the scope"
+				}
+				if how == "" {
+					how = "re-announced unchanged"
+				}
+				kind := wire.SetTemplate
+				if t.Options {
+					kind = wire.SetOptTemplate
+				}
+				ts := wire.Set{Kind: kind, Templates: []*wire.Template{&t}}
+				if proto == "nf9" {
+					ts.Pad = (4 - wire.SetLen(&ts)%4) % 4
+				}
+				ann, _ := wire.EncodeFlow(proto, []uint32{1, 2, 3, 4}, []wire.Set{ts})
+				decodeRecs(api2, keys2[ki].Addr, ann)
+				// the data stays the same octets: what they decode to under the definition now in force is the reference
+				keys2[ki] = pkey{keys2[ki].Addr, &t, ann, keys2[ki].Data}
+				changes = append(changes, fmt.Sprintf("(%x, %d): %s", keys2[ki].Addr, t.ID, how))
+			}
+			before := map[int]string{}
+			for i, k := range keys2 {
+				r, et, _ := decodeRecs(api2, k.Addr, k.Data)
+				before[i] = fmt.Sprint(r) + "|" + normUnknown(et)
+			}
+			if err := api2.dump(f); err != nil {
+				run.Violation("persist:dump-error", "Dump in the second life failed: "+err.Error(), persistCase{Proto: proto, Kind: "minimal-redefinition", Seed: run.Seed})
+				continue
+			}
+			api3 := newCacheAPI(proto, f)
+			run.Eval(1)
+			n++
+			run.Distinct(fmt.Sprintf("minredef|%s|%d", proto, round))
+			for i, k := range keys2 {
+				r, et, pn := decodeRecs(api3, k.Addr, k.Data)
+				if now := fmt.Sprint(r) + "|" + normUnknown(et); pn != "" || now != before[i] {
+					content, _ := os.ReadFile(f)
+					pc := persistCase{Proto: proto, Kind: "minimal-redefinition", Detail: strings.Join(changes, "; "), Judge: true, Seed: run.Seed}
+					if len(content) < 20000 {
+						pc.File = mon.Hex(content)
+					}
+					run.Violation("persist:round-trip:after-minimal-redefinition", fmt.Sprintf("life 2 loaded the saved cache, re-announced [%s] and saved; after loading again, data of exporter %x template %d decodes to %s %s - at the end of life 2 it decoded to %s", strings.Join(changes, "; "), k.Addr, k.Tpl.ID, clip(now, 300), pn, clip(before[i], 300)), pc)
+					break
+				}
+			}
+			os.Remove(f)
+		}
+	}
+	run.Add("three_life_histories_with_minimal_redefinitions", n)
+}
+
+// normUnknown keeps of a decoder error only whether it is an unknown-template / unknown-element / zero-length report.
+func normUnknown(et string) string {
+	switch {
+	case et == "":
+		return ""
+	case strings.Contains(et, "unknown"):
+		return "unknown"
+	case strings.Contains(et, "not exist"):
+		return "element-missing"
+	}
+	return "error"
 }
